@@ -44,6 +44,26 @@ missed = {
  "C17-3": "missed at first: the failed page's data never clashed with the error page; the custom error page now assigns a variable that the failed page's data binds with another type, and a page whose data is itself unsupported was added",
  "C17-4": "missed at first: NewTemplate was called once per path; an earlier NewTemplate with the opposite debug setting is now a choice",
  "C20-3": "missed at first: receivers were literals or template variables; receivers from the Go data and from built-in/operator results added",
+ "C01-5": "missed at first: every postfix expression was the only use of its operand; skeletons that read the variable / element again (a++ + a, xs[0]++ + xs[0], f-- + f for floats) added",
+ "C01-6": "missed at first: prefix operators were applied to variables only; skeletons with a numeric literal between a prefix and a postfix operator added (-2++, a * -2++, -7 % 4)",
+ "C03-5": "caught by C04 (Scopes) as delivered; C03 missed it at first because no nested loop reused the outer loop's variable name; HarnessC03Clauses added",
+ "C03-6": "missed at first: every @for had all three clauses; HarnessC03Clauses adds loops with an absent post clause (the body advances the counter) or an absent condition, with @else",
+ "C05-6": "missed at first: every C05 path made one render; HarnessC05Free is optionally preceded by a render that fails after producing text (sync.Pool model from round 2)",
+ "C06-5": "missed at first: every tree had one page; HarnessC06Pages loads three pages sharing a layout in all 27 insert combinations",
+ "C09-5": "missed by C09 at first (C12 has the shape): no struct with a nil pointer field among C09's data kinds; added directly, behind a pointer and inside a slice",
+ "C09-6": "missed by C09 at first (same change as C20-4, caught by C20): no custom function in C09's templates; HarnessC09Custom registers for one receiver type and calls on all seven kinds",
+ "C11-5": "missed at first: string decimal() had no contract in HarnessC11Str; added for every receiver of <= L bytes (sign only, sign + digits, other)",
+ "C11-6": "missed at first: precedence was checked with accepted arguments only; HarnessC11PrecedenceErr calls four built-ins with rejected arguments while a same-named custom function is registered",
+ "C13-6": "missed at first: no fault sat in a slot body passed to a component; two fault kinds added to HarnessC13Files (default and named slot)",
+ "C14-6": "missed at first: unsupported values were at the top level of the data only; a nested map with three unsupported values of different types added",
+ "C16-6": "missed at first: (a) debug mode was never on in C16's tree - added as a configuration; (b) a package-level cache is shared by the baseline Template and the one under test, so comparing the two cannot see it - the check now also asserts that a debug-mode body shows the very failure the call returns; sync.Map modelled in the engine",
+ "C17-6": "exit 2 at first (atomic.Pointer's CompareAndSwapPointer had no engine model); model added, and the earlier-NewTemplate choice gained 'has already served a failing request'",
+ "C18-5": "exit 2 at first (errors.As went through reflectlite; intrinsic added). Then missed because the oracle was looser than the statement: for a missing/unreadable layout or component it also accepted an error naming the page; it now demands the faulty file's own path or name (the looser form remains only for damaged files that still parse)",
+ "C18-6": "missed at first: no directory spelling cleaned to the working directory itself; '.', './', 'tpl/..', 'other/../' added",
+ "C20-6": "missed at first: every call went through EvaluateString; calls through a Template loaded and used before the registration added",
+ "C02-5": "exit 2 at first (reflect.Value.IsZero had no engine model); model added, and the condition kinds gained zero struct, pointer to it, nil slice, nil map, nil pointer",
+ "C02-6": "missed at first: directives were always written without a gap before '('; blank / tab / newline gaps added for @if, @elseif, @breakIf, @continueIf",
+ "C15-5": "engine crashed into a nil generator at first (math/rand.New returned nil in the model); rand.New now yields a generator whose draws read and write its state cell, so a generator shared by two calls is a conflicting access; page with shuffle() added",
 }
 rows = []
 for d in sorted(glob.glob(os.path.join(here, "seeded", "C*-*"))):
